@@ -132,7 +132,7 @@ int main(int argc, char** argv) {
         vh::Sink sink(outdir);
         c.sink = &sink;
         sink.emit("serial.consts", std::to_string(sizeof(std::size_t)) + " " + std::to_string(sizeof(int)) + " " + std::to_string(sizeof(bool)));
-        const int reps = thorough ? 120 : 14;
+        const int reps = thorough ? 400 : 14;
         c.maxLen = 4;
 #define X(...) corrType<__VA_ARGS__>(c, reps);
         SERIAL_MENU(X)
@@ -143,7 +143,7 @@ int main(int argc, char** argv) {
     if (mode == "prop") {
         vh::PropLog plog(outdir + "/prop.txt");
         c.plog = &plog;
-        const int reps = thorough ? 150 : 20;
+        const int reps = thorough ? 500 : 20;
         c.maxLen = 5;
 #define X(...) propType<__VA_ARGS__>(c, reps);
         SERIAL_MENU(X)
